@@ -24,5 +24,5 @@ SPEC = PropSpec(
     ),
     not_decided="completeness of the predicates (they may under-report compatibility); the quantifier shape of is_smooth / is_decomposable (R7d of DESIGN 3 not built).",
     run=run,
-    floors={"R7a": 1, "R7c": 1, "R7o": 2},
+    floors={"R7c": 1, "R7o": 2},
 )
